@@ -1005,6 +1005,70 @@ far:
     nop();
 ''')
 
+# (h) counts at their limits: the most timelines a game accepts (TH06: 16 slots, TH07+: 15), many subs
+for fmt, n in [('ECL_06', 16), ('ECL_07', 15), ('ECL_08', 15), ('ECL_07', 14), ('ECL_08', 1)]:
+    tl = ''.join('script timeline%d {\n    +%d: ins_%d(%s);\n}\n' % (k, 10 * (k + 1), 0 if fmt == 'ECL_06' else 0, '0, 1, 2' if False else '') for k in range(0))
+    full = '#pragma mapfile "map/any.eclm"\n\n' + ''.join('script timeline%d {\n}\n' % k for k in range(n)) + ''.join('void sub%d() {\n    nop();\n}\n' % k for k in range(3))
+    add('feature/%s-%d-timelines' % (fmt.lower().replace('_', ''), n), fmt, full=full)
+# (i) difficulty switches nested in difficulty switches, shorter / longer than the parent, in every case position
+for k, e in enumerate(['(1:2:(5:6):8)', '(1:2:3:(5:6))', '((1:2):3:4:5)', '(1:(2:3:4:5:6):7:8)', '((1:2:3:4):(5:6:7:8):9:10)', '(1::(2:3)::)']):
+    add('feature/ecl06-nested-diff-switch-%d' % k, 'ECL_06', main_body='    I0 = %s;\n    ins_4(I1, %s);\n' % (e, e))
+# (j) MSG script tables with several entries tied for most-repeated (the `default` entry is a choice)
+add('competition/msg-table-ties', 'MSG_06', full='''
+#pragma mapfile "map/any.msgm"
+meta {
+    table: {
+        0: {script: "a"}, 1: {script: "a"}, 2: {script: "b"}, 3: {script: "b"}, 4: {script: "c"}, 5: {script: "c"}, 7: {script: "a"}, 8: {script: "b"},
+    }
+}
+script a { textSet(0, 0, "a"); }
+script b { textSet(0, 0, "b"); }
+script c { textSet(0, 0, "c"); }
+''')
+add('competition/msg-table-ties-th12', 'MSG_12', full='''
+#pragma mapfile "map/any.msgm"
+meta {
+    table: {
+        0: {script: "a", flags: 256}, 1: {script: "a", flags: 256}, 2: {script: "b", flags: 256}, 3: {script: "b", flags: 256}, 4: {script: "a", flags: 0}, 5: {script: "a", flags: 0},
+    }
+}
+script a { textAdd("a"); }
+script b { textAdd("b"); }
+''')
+# (k) metadata blocks with several unrecognised keys (which one is reported is a choice)
+add('competition/anm-meta-unknown-keys', 'ANM_12', full='''
+#pragma mapfile "map/any.anmm"
+entry {
+    path: "subdir/file.png", has_data: false, img_width: 512, img_height: 512, img_format: 3,
+    zeta_key: 1, alpha_key: 2, mu_key: 3, beta_key: 4,
+    offset_x: 0, offset_y: 0, colorkey: 0, memory_priority: 0, low_res_scale: false,
+    sprites: {sprite0: {id: 0, x: 0.0, y: 0.0, w: 512.0, h: 480.0, qq: 1, aa: 2, zz: 3}},
+}
+script script0 { ins_1(); }
+''')
+add('competition/msg-meta-unknown-keys', 'MSG_06', full='''
+#pragma mapfile "map/any.msgm"
+meta {
+    tabel_len: 3,
+    table: { 0: {script: "a", flagz: 1, skript: 2, aaa: 3} },
+    defualt: 1,
+    zzz: 2,
+}
+script a { textSet(0, 0, "a"); }
+''')
+add('competition/std-meta-unknown-keys', 'STD_12', full='''
+#pragma mapfile "map/any.stdm"
+meta {
+    unknown: 0, anm_path: "stage01.anm", wrong_one: 1, another_wrong: 2, third: 3,
+    objects: { thing: { layer: 4, pos: [10.0, 20.0, 30.0], size: [10.0, 20.0, 30.0], quads: [], bogus_b: 1, bogus_a: 2 } },
+    instances: [],
+}
+script main { }
+''')
+# (l) user mapfiles that redefine the signature of an opcode the game's builtin map already knows
+for fmt, magic, op, call in [('ANM_12', '!anmmap', 51, 'ins_51(-1);'), ('MSG_09', '!msgmap', 4, 'ins_4(-1);'), ('ECL_06', '!eclmap', 0, 'ins_0(-1);'), ('STD_12', '!stdmap', 7, 'ins_7(-1);')]:
+    add('feature/%s-builtin-signature-redefined' % fmt.lower().replace('_', ''), fmt, mapfiles=['%s\n!ins_signatures\n%d s--\n' % (magic, op)], main_body='    %s\n+10:\n    %s\n' % (call, call.replace('-1', '300')))
+
 # --- seeded generated programs (tools/gen_programs.py): ids gen/<profile>-<k>, tag 'gen'
 import gen_programs
 for g in gen_programs.generate():
